@@ -1,7 +1,8 @@
 """C04 — ffi.cast to integer and character types follows C conversion rules.
 
 Tie: regeneration of the decisive structure of cast_to_integer_or_char (branch order, strict flag, statements
-after got_value:) into coq/C04/Gen.v + correspondence.  Every integer/char target type x every source kind (Python int of any magnitude, bool,
+after got_value:) and of the strict flag of do_cast's pointer branch into coq/C04/Gen.v (fail closed: a shape
+change is a broken obligation) + correspondence.  Every integer/char target type x every source kind (Python int of any magnitude, bool,
 finite float, 1-byte bytes, one-character str, pointer/array/function cdata) x boundary and random values on the
 scratch build; int(ffi.cast(T, x)) is compared (a) with the mathematical definition computed here with Python
 ints (truncate toward zero, reduce modulo 2^bits into T's range; _Bool by non-zeroness) — the property
@@ -323,7 +324,8 @@ def run(ctx):
     ctx.assumptions += [
         "hand-written model C04/Model.v of cast_to_integer_or_char, _my_PyObject_AsBool, cdata_int and the pointer branch "
         "of do_cast; tied to the code by this run's differential test and by C04/Gen.v (branch order, strict flag, "
-        "statements after got_value:, regenerated by tools/props/c04_regen.py — trusted translator)",
+        "statements after got_value:, strict flag of do_cast's pointer branch, regenerated by tools/props/c04_regen.py "
+        "— trusted translator, fail closed)",
         "reading: cffi's 'char' converts like C 'unsigned char' (int() gives 0..255), char16_t/char32_t are unsigned, "
         "wchar_t has the platform's signedness (documented cffi behaviour)",
         "float.__int__ truncates toward zero (CPython); gcc as oracle for conversions C defines; little-endian x86-64",
@@ -333,15 +335,42 @@ def run(ctx):
 
 MANIFEST = dict(
     technique="Coq proof over all sources (ints of any magnitude, finite floats m*2^e, bytes, code points, addresses) "
-              "against an independent, canonical specification of C conversion + differential correspondence (impl vs "
-              "definition, vs gcc, vs model)",
-    text="Proof: for every integer/char target (1..8 bytes) and every source, the model's int(ffi.cast(T,x)) equals the "
-         "unique value of T's range congruent to trunc(x) modulo 2^bits (reduce, proved canonical), 0/1 by non-zeroness "
-         "for _Bool (of x, not of trunc x), identity on in-range values, and pointer->(u)intptr_t->pointer returns the "
-         "address; the cast succeeds (COk) for every listed source kind, and the model makes the code's error outcomes "
-         "explicit for the others (str/bytes of another length, non-numbers: TypeError; inf: OverflowError; NaN: ValueError). Hand model tied on every run by casting all source kinds to all target types on the scratch build "
-         "and comparing with the definition, with gcc, and with the model.",
-    note="Trusted: Coq kernel; hand model C04/Model.v (differential tie); CPython float.__int__; gcc; ctypes for true "
-         "addresses. 'char' is read as an unsigned code unit (cffi's documented behaviour). inf/nan and non-number "
-         "sources are outside the statement. Theorems closed under the global context.",
+              "against an independent, canonical specification of C conversion; decisive structure of "
+              "cast_to_integer_or_char and the strict flag of do_cast's pointer branch regenerated from the source on "
+              "every run (fail-closed translator tools/props/c04_regen.py -> coq/C04/Gen.v) and proved to give the hand "
+              "model; link to the C03 store model; differential correspondence (impl vs definition, vs gcc, vs model)",
+    text="PROVED (coq/C04/Props.v, all closed under the global context).  About the hand model C04/Model.v, for every "
+         "integer/char target T (1..8 bytes) and every listed source s: C04_cast_succeeds (result is COk); "
+         "C04_cast_exact (int(ffi.cast(T,x)) = the value of T's range congruent to trunc(x) modulo 2^bits = Spec.reduce); "
+         "C04_reduce_canonical (reduce is in range, congruent, and the unique such value); C04_cast_bool (_Bool: 0/1 by "
+         "non-zeroness of x itself, not of trunc x); C04_cast_in_range_id (in-range values unchanged); C04_cast_unlisted "
+         "(str/bytes of another length, non-numbers: TypeError; inf: OverflowError; NaN: ValueError, except into _Bool); "
+         "C04_ptr_roundtrip (pointer -> (u)intptr_t -> pointer returns the address, any pointer size 1..8).  "
+         "Link to C03 (C03/Store.v convert_from_object integer branches): C04_cast_agrees_with_store (integer/_Bool "
+         "target, Python int in range: the cast holds exactly the bytes encode_int that the store writes, and the store "
+         "succeeds) and C04_cast_is_store_of_reduced (any Python int: the cast holds the bytes the store writes for "
+         "reduce(v)).  "
+         "REGENERATED into coq/C04/Gen.v on every run, by shape, fail closed (a shape change puts the snapshot back AND "
+         "records a broken obligation): cast_branches (order of the source-kind tests of cast_to_integer_or_char, each "
+         "branch body matched against its recorded text), cast_number_strict (strict argument of the final "
+         "_my_PyLong_AsUnsignedLongLong), cast_tail (statements after got_value:, i.e. where `value = !!value` sits "
+         "relative to the truncating store), cast_ptr_strict (strict argument of the integer conversion in do_cast's "
+         "pointer branch, whose head - pointer-like cdata passes c_data through - and tail are matched by shape).  "
+         "Proof obligations over the regenerated facts: C04_gen_cast_refines (C04/Interp.v gen_cast_bytes, which runs the "
+         "regenerated branch order / flag / tail inside hand-written branch bodies, equals Model.cast_bytes for all T, s), "
+         "C04_gen_cast_not_strict, C04_gen_ptr_refines (gen_cast_int_to_ptr over cast_ptr_strict = the hand model's "
+         "masking conversion, never an error), C04_gen_int_to_ptr_total, C04_gen_ptr_roundtrip (the round trip through "
+         "the regenerated conversion): an edit of the order, of either flag (0 -> 1) or of the tail breaks these proofs.  "
+         "CORRESPONDENCE ONLY (hand-written, tied by the run): what each branch computes (branch_value: (wchar_t)ordinal, "
+         "(unsigned char)res, (Py_intptr_t)c_data, _my_PyObject_AsBool, the masking/nb_int conversion), cdata_int, "
+         "write_raw.  Every run casts all source kinds to all target types on the scratch build and compares "
+         "int(ffi.cast(T,x)) with the definition (exact Python arithmetic), with gcc wherever C defines the conversion, "
+         "and with Model.int_of_cast evaluated in Coq; pointer round trips are run on real addresses.",
+    note="Trusted: Coq kernel; the translator c04_regen.py (regex shapes; fail-closed); hand-written branch bodies of "
+         "C04/Model.v and C04/Interp.v (differential tie only); C03/Store.v as the store model (tied by the C03 check, not "
+         "here); CPython float.__int__; gcc; ctypes for true addresses. 'char' is read as an unsigned code unit (cffi's "
+         "documented behaviour). Not modelled: primitive cdata sources (int/char/float/enum cdata via nb_int), objects "
+         "with __int__, the PyCFunction_Check/try_extract_directfnptr and FILE* branches; inf/nan and non-number "
+         "sources are outside the property's statement (their outcomes are explicit in the model and compared). "
+         "C04_gen_cast_not_strict is a reflexivity alarm on the regenerated flag, not a property of behaviour.",
     design_ref="DESIGN.md §4 C04")
